@@ -35,7 +35,7 @@ class RF4CECryptoManager:
     def generateNonce(self, packet, source=None):
         # Check source validity
         if source is None:
-            if packet.fcf_srcaddrmode == 3: # Long address
+            if getattr(packet, "fcf_srcaddrmode", None) == 3: # Long address
                 source = pack("<Q", packet.src_addr)
 
         if source is None:
@@ -49,7 +49,7 @@ class RF4CECryptoManager:
     def generateAuth(self, packet, destination=None):
         # Check destination validity
         if destination is None:
-            if packet.fcf_destaddrmode == 3: # Long address
+            if getattr(packet, "fcf_destaddrmode", None) == 3: # Long address
                 destination = pack("<Q", packet.dest_addr)
 
         if destination is None:
